@@ -10,7 +10,7 @@ from ..tlc import derive_cfg, require_coverage, run_tlc
 DRV = str(VERIF / "harness/drivers/thread_driver.py")
 
 
-def drive(mode, inp, tag, versions, timeout=1200):
+def drive(mode, inp, tag, versions, timeout=1200, ctx=None):
     d = BUILD / "c07"
     d.mkdir(parents=True, exist_ok=True)
     ipath = d / f"{tag}_in.json"
@@ -21,12 +21,17 @@ def drive(mode, inp, tag, versions, timeout=1200):
         v, py = item
         opath = d / f"{tag}_out_{v}.json"
         p, _ = run([py, DRV, mode, str(ipath), str(opath)], timeout=timeout, env=child_env(v))
+        if p.returncode < 0 and ctx is not None and v not in ("3.9", "3.10"):
+            # the replayed schedules are those for which the model predicts no crash: a dead interpreter is a violation
+            ctx.violation(f"[{v}] the interpreter died with signal {-p.returncode} while replaying the {mode} schedules "
+                          f"(the model predicts no crash for any of them)", {"mode": mode, "stderr": p.stderr[-600:]})
+            return v, None
         if p.returncode != 0:
             raise MachineryError(f"thread driver ({mode}) under {v}: exit status {p.returncode} (a negative status is a crash of the interpreter)\n{p.stderr[-1500:]}")
         return v, json.loads(opath.read_text())
 
     with ThreadPoolExecutor(4) as ex:
-        return dict(ex.map(one, interps.items()))
+        return {v: o for v, o in ex.map(one, interps.items()) if o is not None}
 
 
 def check(ctx):
@@ -36,7 +41,11 @@ def check(ctx):
                        "(the interpreter frame moves) and whose thread exits (the old location is unmapped); TLC checks no crash, "
                        "no use-after-free, snapshot consistent with one instruction position, bounded attempts over every "
                        "interleaving; simulated interleavings are replayed on a real target thread and a real inspector thread "
-                       "blocked at the guarded probes, comparing result, snapshot length/objects and attempt count; "
+                       "blocked at the guarded probes, comparing result, snapshot length/objects and attempt count; FREE-RUNNING "
+                       "inspect_frame calls on a thread that never stops are recorded through the same probes (the sink also reads "
+                       "the target's f_lasti at every probe) and each call is validated as a run of the inspector automaton by "
+                       "FrameSnapshotTrace.tla (no slot read and no snapshot returned after a re-check that saw another position; "
+                       "trimming depth = the exception table's handler depth of this attempt; bounded attempts); "
                        "ThreadUnwrap.tla does the same for unwrap_thread's alive/ident protocol including ident reuse by a later "
                        "thread (all behaviours replayed); blocked threads of depth 1..5 with 0..3 managers, unstarted and "
                        "finished threads are compared exactly; a free-running stress with a 1 microsecond switch interval runs in "
@@ -68,7 +77,7 @@ def check(ctx):
         if k not in seen:
             seen.add(k)
             behs.append(e)
-    outs = drive("snapshot", {"behaviours": behs}, "snapshot", ("3.12", "3.11"))
+    outs = drive("snapshot", {"behaviours": behs}, "snapshot", ("3.12", "3.11"), ctx=ctx)
     for v, o in outs.items():
         ctx.replays += o["n"]
         for mm in o["mismatches"]:
@@ -93,13 +102,13 @@ def check(ctx):
             for mm in o["mismatches"]:
                 ctx.violation(f"[{v}] F10 schedule: " + "; ".join(mm["bad"]), mm)
     # ---- replay: unwrap_thread, blocked threads, stress
-    outs = drive("unwrap", {"behaviours": u.emitted}, "unwrap", None)
+    outs = drive("unwrap", {"behaviours": u.emitted}, "unwrap", None, ctx=ctx)
     for v, o in outs.items():
         ctx.replays += o["n"]
         ctx.count("ident_reuse_not_reproducible", o["skipped"])
         for mm in o["mismatches"]:
             ctx.violation(f"[{v}] unwrap_thread schedule {mm['acts']}: " + "; ".join(mm["bad"]), mm)
-    outs = drive("blocked", {}, "blocked", None)
+    outs = drive("blocked", {}, "blocked", None, ctx=ctx)
     for v, o in outs.items():
         ctx.replays += o["n"]
         for mm in o["mismatches"]:
@@ -123,5 +132,74 @@ def check(ctx):
         ctx.count("stress_extractions", o["extractions"])
         for b in o["bad"]:
             ctx.violation(f"[{v}] stress: {b}", None)
+    # ---- pattern T: free-running inspect_frame calls validated against FrameSnapshotTrace
+    (d / "trace_in.json").write_text(json.dumps({"seconds": 3 if ctx.tier == "quick" else 40,
+                                                  "max_traces": 1500 if ctx.tier == "quick" else 20000}))
+    all_traces, owners = [], []
+    for v, py in available_interpreters().items():
+        if v in ("3.9", "3.10"):
+            continue
+        opath = d / f"trace_out_{v}.json"
+        p = subprocess.run([py, DRV, "trace", str(d / "trace_in.json"), str(opath)], env=child_env(v), capture_output=True, text=True, timeout=900)
+        if p.returncode < 0:
+            ctx.violation(f"[{v}] free-running inspect_frame loop: the interpreter died with signal {-p.returncode}", None)
+            continue
+        if p.returncode != 0:
+            raise MachineryError(f"trace driver under {v}: {p.stderr[-1000:]}")
+        o = json.loads(opath.read_text())
+        for b in o["bad"]:
+            raise MachineryError(f"[{v}] trace driver: {b}")
+        ctx.count("free_running_inspections", o["calls"])
+        ctx.count("free_running_inspections_with_retry", o["with_retry"])
+        ctx.count("free_running_inspections_of_an_executing_frame", o["unknown_top"])
+        ctx.count("free_running_rejected_by_assertion", o["raised"])
+        ctx.count("free_running_gave_up", o["giveup"])
+        for t in o["traces"]:
+            all_traces.append(t)
+            owners.append(v)
+    if all_traces:
+        # self-test of the binding: a recorded trace with ONE observation altered (a slot re-check that saw the target
+        # elsewhere, yet the call went on reading) must be rejected
+        import copy
+        donor = next((t for t in all_traces if t["events"][-1]["result"] == "ok"
+                      and any(e["e"] == "slot" for e in t["events"]) and not any(e["e"] == "retry" for e in t["events"])), None)
+        corrupted = None
+        if donor is not None:
+            corrupted = copy.deepcopy(donor)
+            ev = next(e for e in corrupted["events"] if e["e"] == "slot")
+            ev["seen"] = ev["seen"] + 2
+            all_traces.append(corrupted)
+            owners.append("corrupted")
+        tpath = d / "fs_traces.json"
+        tpath.write_text(json.dumps(all_traces))
+        tr = ctx.tlc(run_tlc("FrameSnapshotTrace", "FS_trace.cfg", workers=1, timeout=1800, coverage=False,
+                             env={"FS_TRACES": str(tpath)}, name="fstrace"), "trace validation of free-running inspect_frame calls")
+        if not tr.ok:
+            raise MachineryError(f"trace validation run failed: {tr.violated} {tr.trace_text[-1500:]}")
+        best = {}
+        for e in tr.emitted:
+            k = e["tid"] - 1
+            if k not in best or e["l"] > best[k]["l"] or (e["l"] == best[k]["l"] and e["verdict"] != "ok"):
+                best[k] = e
+        for k, t in enumerate(all_traces):
+            e = best.get(k)
+            if e is None:
+                raise MachineryError(f"no verdict for trace {k}")
+            if owners[k] == "corrupted":
+                if e["consumed"] and e["verdict"] == "ok":
+                    raise MachineryError("FrameSnapshotTrace accepted a corrupted trace: the trace specification binds nothing")
+                ctx.note("corrupted_trace_rejected_at_event", e["l"] - 1)
+                continue
+            if e["verdict"] != "ok":
+                ctx.violation(f"[{owners[k]}] free-running inspect_frame call: {e['verdict']} (event {e['l'] - 1} of {len(t['events'])})",
+                              {"trace": t, "interpreter": owners[k]})
+            elif not e["consumed"]:
+                ev = t["events"][e["l"] - 1]
+                ctx.violation(f"[{owners[k]}] free-running inspect_frame call is not a run of the snapshot protocol: matched "
+                              f"{e['l'] - 1} of {len(t['events'])} events, inspector at '{e['ipc']}', next event {ev['e']} "
+                              f"(saw lasti {ev['seen']})", {"trace": t, "interpreter": owners[k]})
+            else:
+                ctx.traces += 1
+        ctx.sample({"free_running_trace": all_traces[0]})
     ctx.note("interpreters", sorted(available_interpreters()))
     ctx.sample({"schedule": behs[0]["acts"], "spec_result": {k: behs[0][k] for k in ("result", "lb", "snap", "attempt")}})
